@@ -333,18 +333,8 @@ def immw_rule(ctx: Ctx) -> None:
     r = ctx.rule("R01.immw", "immediate field width and extension per format (bit-slice domain)")
     for cn, (attr, param, width, signed) in IMM_FORMATS.items():
         c = m.cls(cn)
-        init = m.method(c, "__init__", own=True)
-        val = None
-        for n in init.node.body:
-            if isinstance(n, ast.Assign) and isinstance(n.targets[0], ast.Attribute) and n.targets[0].attr == attr \
-                    and isinstance(n.targets[0].value, ast.Name) and n.targets[0].value.id == init.params[0]:
-                val = n.value  # the last assignment wins
-        if val is None:
-            raise AnalysisError(f"anchor vanished: {cn}.__init__ assignment of self.{attr}")
-        try:
-            got = Evaluator({param: Form.var(param)}, Folder(m, init.module, c)).ev(val)
-        except Inconclusive as exc:
-            raise AnalysisError(f"R01.immw: {cn}.{attr} = `{ast.unparse(val)}` is outside the bit-slice domain: {exc}")
+        from ..immform import stored_imm
+        init, got, val = stored_imm(m, c, attr, param, "R01.immw")
         want = Form.field(param, 0, width, signed=signed)
         r.check(got == want, f"{cn}.{attr}", init.loc(val),
                 f"{cn} stores {attr} = {got.describe()}; the format has a {width}-bit "
